@@ -37,10 +37,15 @@ TreeOK(X, J, g, i) ==
     IN \E t \in Targets(X, J, i) : Has(g.tree, t) /\ Has(g.tree[t], "frames")
                                    /\ RowsOK(X, "frame_object", J.classes[n].rows.frame_object, g.tree[t].frames)
 
+(* the namespaces the jar was remapped between (1-based; absent: first -> second) *)
+FromOf(r) == IF Has(r, "from") THEN r.from ELSE 1
+ToOf(r) == IF Has(r, "to") THEN r.to ELSE 2
+CtxOf(r, sup) == CtxFT(NormTree(r.M), FromOf(r), ToOf(r), sup)
+
 Accept(r) ==
     LET g == r.got IN
     IF ~Has(g, "ok") THEN FALSE                                   \* a panic
-    ELSE LET X == Ctx(NormTree(r.M), g.sup)
+    ELSE LET X == CtxOf(r, g.sup)
              J == g.in
          IN IF ~g.ok THEN ~AllUnclashed(X, J)                     \* a valid jar must be remapped
             ELSE /\ JarLaw(X, J, g.out, WFok)
@@ -50,7 +55,7 @@ BadKinds(X, ci, co) == {k \in DOMAIN ci.rows : ~(Has(co.rows, k) /\ RowsOK(X, k,
 Expected(r) ==
     LET g == r.got IN
     IF ~Has(g, "in") THEN [ok |-> TRUE]
-    ELSE LET X == Ctx(NormTree(r.M), g.sup)
+    ELSE LET X == CtxOf(r, g.sup)
              J == g.in
          IN IF ~g.ok THEN [ok |-> TRUE, clash |-> ~AllUnclashed(X, J)]
             ELSE LET O == g.out IN
